@@ -366,6 +366,11 @@ def r7_named_fields(ctx):
 from ..through_time import make_rule as _mk_tt
 _through_time = _mk_tt("C02")
 
+from .c18 import r2_parsing as _number_parsing              # signs, digits, powers of integer / float columns
+def _selection_tables(ctx):
+    from .c04 import r2_aligned_stores
+    r2_aligned_stores(ctx)   # start/length/record tables stay aligned when lazy chunks are selected, compacted, concatenated
+
 RULES = [
     ("C02-R1", r1_parser_exhaustive),
     ("C02-R2", r2_coordinate_shift),
@@ -376,4 +381,6 @@ RULES = [
     ("C02-R7", r7_named_fields),
     ("C02-R8", _crlf_line_ends),
     ("C02-T1", _through_time),
+    ("C02-R9", _number_parsing),
+    ("C02-R10", _selection_tables),
 ]
